@@ -88,6 +88,14 @@ CHECKS = {
             "same-axis clamping of fixed pins, regularisation before solving, and axis consistency of the global placer (326 functions) including X/Y twin agreement.",
             "Trusted: clang 14 front end; name-based axis seeds. Declined: containment and finiteness of solver output; absence of errors (floating-point behaviour).",
             "DESIGN.md 2/C06"),
+    "C12": ("edge-dominance of state mutations by the update flag, reachability analysis of save/restore of popped bounds",
+            "One clause only, decided for every call: a cost prediction (getCost) leaves bounds, constrainingPos_ and cumWidth_ unchanged -- every popped bound is saved and pushed back, committed state is written only when update is true.",
+            "Trusted: clang 14 front end. Declined: order, overlap, containment, optimality and cost exactness (numerical).",
+            "DESIGN.md 2/C12"),
+    "C16": ("who-may-write, post-dominance pairing of the two allocation representations, reachability analysis of empty-then-refill, loop coverage, X/Y twin agreement",
+            "One thin clause, decided structurally: the cell->bin maps and the bin->cells lists are always updated together and the redistribution paths (reoptimize, rebisect, refine, coarsen) cannot drop a cell.",
+            "Trusted: clang 14 front end. Declined: capacity exactness/aggregation, conservation through the hierarchy index arithmetic, coordinates inside the bin.",
+            "DESIGN.md 2/C16"),
 }
 
 NOT_APPLICABLE = {
